@@ -74,7 +74,6 @@ pub open spec fn map_ok(m: MapB, w: MapW) -> bool {
     &&& htx_wf(m.hb, m.n)
     &&& heap_ok(m.kb, m.kpm, w.kw) && m.kpm.free_list_offset@[0] == 48
     &&& heap_ok(m.vb, m.vpm, w.vw) && m.vpm.free_list_offset@[0] == 32
-    &&& m.kb.len() <= 0x1000_0000_0000_0000 && m.vb.len() <= 0x1000_0000_0000_0000
     &&& kinds_ok(w.kw, w.vw)
     &&& chains_ok(w.kw, m.hb, m.n, w.cs)
     &&& all_on_chains(w.kw, m.n, w.cs)
@@ -83,6 +82,9 @@ pub open spec fn map_ok(m: MapB, w: MapW) -> bool {
     &&& htx_count(m.hb) == total(w.cs)
     &&& htx_count(m.hb) < 0xffff_ffff_ffff_ffff
 }
+
+/// machine-arithmetic hypothesis of the mutators: the data files are smaller than 2^60 bytes
+pub open spec fn small(m: MapB) -> bool { m.kb.len() <= 0x1000_0000_0000_0000 && m.vb.len() <= 0x1000_0000_0000_0000 }
 
 /// the ideal map represented by the files: domain predicate and value function
 pub open spec fn has_key(w: MapW, k: Seq<u8>) -> bool { exists|o: nat| #[trigger] is_key(w.kw, o) && kkey(w.kw, o) == k }
